@@ -2,9 +2,7 @@
 # Runs every seeded change under /verif/seeded against the quick checks named in its meta.json
 # (scratch worktree + VERIF_REPO; /repo itself is never touched) and writes seeded/RESULTS.json.
 cd /verif
-out=/verif/seeded/RESULTS.json
-echo "{" > $out.tmp
-first=1
+tmp=$(mktemp)
 for d in seeded/*/; do
   n=$(basename $d)
   [ -f $d/meta.json ] || continue
@@ -12,11 +10,17 @@ for d in seeded/*/; do
   checks=$(python3 -c "import json;print(' '.join(json.load(open('$d/meta.json'))['checks_expected_to_catch']))")
   res=$(SKIP_TESTS=1 SHOW=2 tools/try_mutant.sh $d/patch.diff $checks 2>&1)
   line=$(echo "$res" | grep '^check ' | tr '\n' ';')
-  sig=$(echo "$res" | grep -m1 'signature=' | sed 's/^ *//' | cut -c1-160 | sed 's/"/\\"/g')
-  [ $first = 1 ] || echo "," >> $out.tmp
-  first=0
-  printf '  "%s": {"result": "%s", "first_violation": "%s"}' "$n" "$line" "$sig" >> $out.tmp
+  sig=$(echo "$res" | grep -m1 'signature=' | sed 's/^ *//' | cut -c1-200)
+  printf '%s\t%s\t%s\n' "$n" "$line" "$sig" >> $tmp
   echo "$n: $line"
 done
-echo "" >> $out.tmp; echo "}" >> $out.tmp
-python3 -c "import json;json.load(open('$out.tmp'))" && mv $out.tmp $out
+python3 - "$tmp" <<'PY'
+import sys, json, os
+p = "/verif/seeded/RESULTS.json"
+old = json.load(open(p)) if os.path.exists(p) else {}
+for l in open(sys.argv[1]):
+    n, line, sig = (l.rstrip("\n").split("\t") + ["", ""])[:3]
+    old[n] = {"result": line, "first_violation": sig}
+json.dump(old, open(p, "w"), indent=1, sort_keys=True)
+PY
+rm -f $tmp
